@@ -284,6 +284,14 @@ pub fn run_c29(cli: &Cli) -> Report {
                                 if in_band(umin) && amin != umin || in_band(umax) && amax != umax {
                                     sink.fail("C29/in_band_bound_changed", format!("price ({umin},{umax}) ref {refp} dev {dev} became ({amin},{amax})"), rp());
                                 }
+                                // clamping moves every out-of-band bound into the band whenever the band contains a
+                                // value representable at the price's precision (otherwise the result is rejected below)
+                                let lo_rep = (refp.saturating_sub(dev) + step - 1) / step * step; // smallest representable value >= ref - dev
+                                let hi_rep = refp.saturating_add(dev) / step * step; // largest representable value <= ref + dev
+                                let band_representable = lo_rep <= hi_rep && in_band(lo_rep) && in_band(hi_rep) && hi_rep / step <= u32::MAX as u128;
+                                if band_representable && (!in_band(amin) || !in_band(amax)) {
+                                    sink.fail("C29/out_of_band_bound_left_unclamped", format!("price ({umin},{umax}) ref {refp} dev {dev} clamped to ({amin},{amax}) although [{lo_rep},{hi_rep}] is representable inside the band"), rp());
+                                }
                                 // acceptance pipeline on the adjusted price
                                 let accepted = ov::small_prices(&adj, false, true).is_ok()
                                     && PriceValidator::try_from(&*store).ok().map(|mut v| ov::validate_one(&mut v, &tc, &PriceProviderKind::ChainlinkDataStreams, 1_000, 1, &adj, refd.as_ref()).is_ok()).unwrap_or(false);
